@@ -700,8 +700,16 @@ static int _mod_register (mod_t mod, const char *name)
     }
 
     /*
+     * Continue with module loading only if personality acceptable.
+     *  (This must come first: a module that is not going to be loaded
+     *  must not displace an already loaded module of the same name.)
+     */
+    if (!(mod->pmod->personality & pdsh_personality()))
+        return -1;
+
+    /*
      *  Check for existing module of the same type and name
-     *   Delete previous module if its priority is higher.
+     *   Delete previous module if its priority is lower.
      */
     if ((prev = mod_get_module (mod->pmod->type, mod->pmod->name))) {
         err("%p: %s: [%s/%s] already loaded from [%s]\n",
@@ -712,12 +720,6 @@ static int _mod_register (mod_t mod, const char *name)
         else
             return (-1);
     }
-
-    /*
-     * Continue with module loading only if personality acceptable
-     */
-    if (!(mod->pmod->personality & pdsh_personality()))
-        return -1;
 
     list_prepend(module_list, mod);
 
